@@ -223,6 +223,8 @@ pub fn run(cfg: Config, bodies: Vec<Box<dyn FnOnce() + Send>>) -> Report {
                 .name(format!("sim-T{i}"))
                 .spawn(move || {
                     ME.with(|m| m.set(Some(i)));
+                    // structures that stripe by OS thread id use this slot
+                    qbice_storage::verif::set_thread_slot(i);
                     {
                         let mut g = s2.m.lock().unwrap();
                         while g.current != Some(i) {
